@@ -104,3 +104,65 @@ Section StmtVisitor.
     | _ => (s, [])
     end.
 End StmtVisitor.
+
+(* ---- decidable equality on the abstract syntax produced by the converter (SExpr trees are never produced: unequal) ---- *)
+Definition opt_eqb {A} (e : A -> A -> bool) (a b : option A) : bool :=
+  match a, b with Some x, Some y => e x y | None, None => true | _, _ => false end.
+Definition pk_eqb (a b : N * shape) : bool := N.eqb (fst a) (fst b) && N.eqb (snd a) (snd b).
+Definition link_eqb (a b : link) : bool :=
+  N.eqb (l_id a) (l_id b) && N.eqb (l_pos a) (l_pos b) && Bool.eqb (l_init a) (l_init b) && opt_eqb pk_eqb (l_assert a) (l_assert b).
+Definition stmt_eqb (a b : stmt) : bool :=
+  match a, b with
+  | SIfChain l e, SIfChain l' e' => list_eqb link_eqb l l' && Bool.eqb e e'
+  | SSwitch p c, SSwitch p' c' => N.eqb p p' && list_eqb pk_eqb c c'
+  | STypeSwitch p g h, STypeSwitch p' g' h' => N.eqb p p' && Bool.eqb g g' && list_eqb Bool.eqb h h'
+  | SLit p w ks, SLit p' w' ks' => N.eqb p p' && opt_eqb N.eqb w w' && list_eqb pk_eqb ks ks'
+  | _, _ => false
+  end.
+Definition comment_eqb (a b : comment) : bool :=
+  N.eqb (c_pos a) (c_pos b) && Bool.eqb (c_code a) (c_code b) && Bool.eqb (c_output a) (c_output b).
+Definition decl_eqb (a b : decl) : bool :=
+  match a, b with
+  | DFunc p ex r bd cs, DFunc p' ex' r' bd' cs' =>
+      N.eqb p p' && Bool.eqb ex ex' && opt_eqb String.eqb r r' && opt_eqb (list_eqb stmt_eqb) bd bd' && list_eqb comment_eqb cs cs'
+  | DType p ns, DType p' ns' => N.eqb p p' && list_eqb String.eqb ns ns'
+  | DOther p b, DOther p' b' => N.eqb p p' && list_eqb stmt_eqb b b'
+  | _, _ => false
+  end.
+Definition decl_pos (d : decl) : N := match d with DFunc p _ _ _ _ => p | DType p _ => p | DOther p _ => p end.
+
+(* ---- the laws, evaluated: what they predict for a TRANSFORMED file from per-declaration runs on the ORIGINAL file.
+   tags: for every declaration of the transformed file, None = padding inserted by the transformation,
+   Some i = "this is the i-th (binary N: unary indices made the evaluation quadratic in practice) original declaration, moved by some offset" (the claim is CHECKED with decl_eqb). ---- *)
+Definition unshift_w (k : N) (w : warning) : warning := ((fst w - k)%N, snd w).
+Section LawEval.
+  Context {S : Type}.
+  Variable on_decl : S -> decl -> S * list warning.
+  Variable s0 : S.
+  Definition predict_one (ds : file) (d' : decl) (tag : option N) : option (list warning) :=
+    match tag with
+    | None => Some (snd (on_decl s0 d'))
+    | Some i =>
+        match nth_error ds (N.to_nat i) with
+        | None => None
+        | Some d =>
+            if (decl_pos d <=? decl_pos d')%N then
+              let k := (decl_pos d' - decl_pos d)%N in
+              if decl_eqb (shift_decl k d) d' then Some (map (shift_w k) (snd (on_decl s0 d))) else None
+            else
+              let k := (decl_pos d - decl_pos d')%N in
+              if decl_eqb (shift_decl k d') d then Some (map (unshift_w k) (snd (on_decl s0 d))) else None
+        end
+    end.
+  Fixpoint predict (ds ds' : file) (tags : list (option N)) : option (list warning) :=
+    match ds', tags with
+    | [], [] => Some []
+    | d' :: r', t :: rt =>
+        match predict_one ds d' t, predict ds r' rt with Some a, Some b => Some (a ++ b)%list | _, _ => None end
+    | _, _ => None
+    end.
+End LawEval.
+(* nothing of the original is lost: every original index occurs exactly once among the tags *)
+Definition tags_cover (n : nat) (tags : list (option N)) : bool :=
+  forallb (fun i => let i := N.of_nat i in
+                    Nat.eqb (length (filter (fun t => match t with Some j => N.eqb i j | None => false end) tags)) 1) (seq 0 n).
